@@ -16,7 +16,7 @@ from __future__ import annotations
 import z3
 
 from .common import *
-from .C02 import _Scope, AsyncScope, variant
+from .C02 import _Scope, AsyncScope, SyncScope, variant
 from pyvc.state import QFact
 from pyvc.lib import dict_parts
 from pyvc import lib as L
@@ -374,4 +374,4 @@ P = ("C01-",)
 _DISP = [_from_c08(_C08Initialize, ("P1:returns-none",)),
          _from_c08(_C08Enter, ("P1:one-_initialize-per-disposable", "P1:result-is-the-in-order-concatenation"))]
 CONTRACTS = _DISP + [variant(Init, "C01", P), variant(Lookup, "C01", P), variant(Updated, "C01", P), Current(), CtxState(), UpdatedCtx(),
-             variant(AsyncScope, "C01", P)]
+             variant(AsyncScope, "C01", P), variant(SyncScope, "C01", P)]
